@@ -58,6 +58,9 @@ pub enum RepeatMode {
     Pairs,
     /// every flag is written as flag|REPEAT followed by a count of 0
     ZeroCountAll,
+    /// runs are cut into pieces of at most this many points (so the largest count byte written is cap - 1);
+    /// Capped(256) = Greedy, Capped(2) = Pairs, Capped(1) = None
+    Capped(u16),
 }
 
 #[derive(Clone, Debug, PartialEq, Eq, Hash)]
@@ -272,6 +275,7 @@ pub fn encode_simple_into(out: &mut Vec<u8>, contours: &[Contour], enc: &SimpleE
         RepeatMode::Greedy => 256,
         RepeatMode::Pairs => 2,
         RepeatMode::ZeroCountAll => 1,
+        RepeatMode::Capped(n) => (n as usize).clamp(1, 256),
     };
     let flags = &s.flags;
     let mut i = 0;
@@ -327,6 +331,28 @@ pub fn repeat_run_spans_contours(contours: &[Contour], bytes: &[u8]) -> bool {
         i += cnt;
     }
     false
+}
+
+/// the repeat runs of an encoded simple glyph (as produced by `encode_simple*` for `contours`):
+/// (index of the first point, number of points covered, count byte) for every flag written with REPEAT_FLAG
+pub fn repeat_runs(contours: &[Contour], bytes: &[u8]) -> Vec<(usize, usize, u8)> {
+    let n: usize = contours.iter().map(|c| c.len()).sum();
+    let mut r = R::at(bytes, 10 + 2 * contours.len());
+    let il = r.u16().unwrap() as usize;
+    r.take(il);
+    let mut out = Vec::new();
+    let mut i = 0usize;
+    while i < n {
+        let f = r.u8().unwrap();
+        if f & REPEAT != 0 {
+            let b = r.u8().unwrap();
+            out.push((i, b as usize + 1, b));
+            i += b as usize + 1;
+        } else {
+            i += 1;
+        }
+    }
+    out
 }
 
 const ARG_WORDS: u16 = 0x0001;
@@ -1046,6 +1072,15 @@ mod tests {
         let cs2 = vec![vec![p(0, 0, true), p(1, 1, true)], vec![p(2, 2, true), p(3, 3, true)]];
         assert!(repeat_run_spans_contours(&cs2, &encode_simple(&cs2, &enc)));
         assert!(!repeat_run_spans_contours(&cs2, &encode_simple(&cs2, &SimpleEnc::default())));
+        // long runs: 600 equal flags under every cap
+        let long: Vec<Contour> = vec![(0..300).map(|i| p(3 * (i + 1), 2 * (i + 1), true)).collect(), (300..600).map(|i| p(3 * (i + 1), 2 * (i + 1), true)).collect()];
+        for (cap, want) in [(256u16, vec![255u8, 255, 87]), (255, vec![254, 254, 89]), (129, vec![128, 128, 128, 128, 83]), (128, vec![127, 127, 127, 127, 87]), (1, vec![])] {
+            let enc = SimpleEnc { repeat: RepeatMode::Capped(cap), ..SimpleEnc::default() };
+            let b = encode_simple(&long, &enc);
+            assert_eq!(decode_simple(&b).as_ref(), Some(&long));
+            assert!(simple_decodes_to(&b, &long, &mut s));
+            assert_eq!(repeat_runs(&long, &b).iter().map(|r| r.2).collect::<Vec<_>>(), want, "cap {}", cap);
+        }
     }
 
     fn flat(v: &[(f64, f64, bool)]) -> FlatGlyph {
